@@ -55,6 +55,8 @@ fn params_frag() -> impl Strategy<Value = Option<String>> {
             "{\"enabled\":true}", "{\"enabled\":false}", "{\"enabled\":\"true\"}", "{\"enabled\":1}", "{\"enabled\":null}", "{\"Enabled\":true}",
         ]).prop_map(|s| Some(s.to_string())),
         4 => ms_frag().prop_map(|m| Some(format!("{{\"ms\":{m}}}"))),
+        2 => wild_string().prop_map(|w| Some(format!("{{\"mode\":{w}}}"))),
+        1 => wild_string().prop_map(|w| Some(format!("{{\"topic\":{w},\"enabled\":{w}}}"))),
         2 => proptest::sample::select(vec!["{}", "[]", "null", "\"x\"", "5", "[{\"mode\":\"classic\"}]", "{\"mode\":\"classic\",\"enabled\":true,\"ms\":2000,\"extra\":[1,{\"a\":null}]}",
             "{\"topic\":\"stats\"}", "{\"subscription_id\":\"sub-0\"}"]).prop_map(|s| Some(s.to_string())),
         1 => (ms_frag(), any::<bool>()).prop_map(|(m, b)| Some(format!("{{\"enabled\":{b},\"mode\":\"classic\",\"ms\":{m}}}"))),
@@ -79,8 +81,20 @@ fn ver_frag() -> impl Strategy<Value = Option<String>> {
     ]
 }
 
+/// A JSON string literal with arbitrary (also long, multi-byte) content.
+fn wild_string() -> impl Strategy<Value = String> {
+    prop_oneof![
+        2 => "\\PC{0,24}",
+        2 => "\\PC{40,140}",
+        1 => (0usize..100, 1usize..80).prop_map(|(a, b)| format!("{}{}", "x".repeat(a), "\u{e9}".repeat(b))),
+        1 => (0usize..70, 1usize..40).prop_map(|(a, b)| format!("{}{}", "y".repeat(a), "\u{20ac}\u{1f600}".repeat(b))),
+    ]
+    .prop_map(|s| serde_json::to_string(&s).unwrap())
+}
+
 fn method_frag() -> impl Strategy<Value = Option<String>> {
     prop_oneof![
+        2 => wild_string().prop_map(Some),
         12 => proptest::sample::select(vec!["set_mode", "set_quality", "set_stall_deselect", "set_conn_timeout", "get_status", "get_stats"]).prop_map(|s| Some(format!("\"{s}\""))),
         2 => proptest::sample::select(vec!["noop", "", "SET_MODE", "set_mode ", "mark_critical", "rpc.discover"]).prop_map(|s| Some(format!("\"{s}\""))),
         1 => proptest::sample::select(vec!["subscribe", "unsubscribe", "get_subscription_count"]).prop_map(|s| Some(format!("\"{s}\""))),
@@ -125,6 +139,7 @@ fn coherent_request() -> impl Strategy<Value = String> {
         ms_frag().prop_map(|m| ("set_conn_timeout", format!("{{\"ms\":{m}}}"))),
         Just(("get_status", "{}".to_string())),
         Just(("get_stats", "null".to_string())),
+        wild_string().prop_map(|w| ("set_mode", format!("{{\"mode\":{w}}}"))),
     ];
     (mp, id_frag(), prop::bool::weighted(0.9)).prop_map(|((m, p), id, v2)| {
         let ver = if v2 { "2.0" } else { "1.0" };
@@ -163,7 +178,7 @@ fn any_line() -> impl Strategy<Value = String> {
         6 => coherent_request(),
         2 => json_value(3),
         1 => vec(any::<u8>(), 0..80).prop_map(|b| String::from_utf8_lossy(&b).replace(['\n', '\r'], " ")),
-        1 => request_line().prop_map(|s| s[..s.len() / 2].to_string()),
+        1 => request_line().prop_map(|s| String::from_utf8_lossy(&s.as_bytes()[..s.len() / 2]).to_string()),
         1 => (request_line(), any::<u8>(), any::<u16>()).prop_map(|(s, c, at)| {
             let mut b = s.into_bytes();
             if !b.is_empty() {
